@@ -19,4 +19,42 @@ CLAIMED = {
     },
 }
 
+CLAIMED.update({
+    "C09": {
+        "text": "Theorem len_eq: for EVERY schema and EVERY value (no well-typedness hypothesis) the model of __len__ (_len_single, _len_preprocessed_single, "
+                "written separately, branch for branch) returns the length of what the model of dump writes, and raises exactly when dump raises; "
+                "dump(SIZE_DELIMITED) = canonical varint of that length ++ bytes(m), which the decoder reads back as the body length. Proved by structural "
+                "induction over field lists / items / map entries. The model's dump/len are tied to the code by the correspondence run.",
+        "note": TB + "dump(BytesIO) == bytes(m) and SerializeToString == bytes are one-line delegations in the code: checked by the oracle, not modelled separately.",
+        "technique": "Lean 4 proof (structural induction, two independently written walks related lemma by lemma) + differential correspondence",
+        "design_ref": "DESIGN.md §7 C09",
+    },
+    "C08": {
+        "text": "Theorems for every byte string the decoder accepts and every receiving schema: raw bytes of the parsed records concatenate to the input (no byte lost or invented); "
+                "records the receiver does not know (number absent or wire type unfitting) are appended verbatim, in arrival order, to the unknown fields and nothing else is; "
+                "encode = known part ++ unknown bytes; decoding with the unknown records deleted gives the same field values / oneof selection / presence; any sub-sequence of "
+                "parsed records re-parses to itself. End-to-end evolution (newer -> older reader/writer -> newer) is the oracle on the implementation.",
+        "note": TB + "evolution end-to-end needs the C01 round trip and C02 order-insensitivity; proved at record level, observed end to end.",
+        "technique": "Lean 4 proof (induction over the parsed record list; locality of record decoding) + differential correspondence with older-schema readers",
+        "design_ref": "DESIGN.md §7 C08",
+    },
+    "C10": {
+        "text": "Theorems: the writer emits canonical-varint(len(bytes(m))) ++ bytes(m) (uses C09 len_eq); a delimited load on any stream starting with a frame parses exactly the body "
+                "and leaves exactly what follows (empty bodies included); by induction any list of frames is read back by successive loads as the list of individual decodings with "
+                "the rest untouched; every proper prefix of a frame makes the load raise; a stream cut after j whole frames yields exactly the first j loads.",
+        "note": TB + "stream.read(n) on a BytesIO-like stream returns min(n, available) bytes (short reads of sockets are outside the model); reference framing compared with google.protobuf's varint prefix.",
+        "technique": "Lean 4 proof (induction over the frame list; varint prefix lemmas from C16) + differential correspondence incl. every cut point",
+        "design_ref": "DESIGN.md §7 C10",
+    },
+    "C17": {
+        "text": "Theorems for ALL byte strings: framing never runs out of fuel (termination); whatever is accepted is a sequence of well-formed records covering the input exactly "
+                "(positive numbers, wire types 0/1/2/5, payloads of exactly the announced/fixed length); every prefix of an accepted input is either a record boundary (decoding to the "
+                "records before it) or rejected with EOFError; field number 0 and wire types 3/4/6/7 are rejected wherever the tag stands; a known number with an unfitting wire type "
+                "only appends its raw bytes to the unknown fields (no value, selection or presence changes); wireFits agrees with the regenerated WIRE_TYPE_BY_PROTO_TYPE table for every type.",
+        "note": TB + "'every returned field has its declared Python type and re-encodes' is checked by the oracle on the implementation for every generated input (theorem ok_welltyped not yet proved).",
+        "technique": "Lean 4 proof (induction over the record list, truncation lemmas for varints/payloads) + differential correspondence on mutated encodings",
+        "design_ref": "DESIGN.md §7 C17",
+    },
+})
+
 NOT_CLAIMED = {}
